@@ -915,7 +915,8 @@ func (g *gen) boolean(d int) string {
 		if g.user {
 			return "orelse(" + g.boolean(d-1) + ", " + g.boolean(d-1) + ")"
 		}
-		return "match(\"^[a-z]+$\", " + g.str(d-1) + ")"
+		// a pattern this process has (most likely) not seen before
+		return fmt.Sprintf("match(\"^[a-z%d]{0,%d}%s?$\", %s)", r.intn(10), 1+r.intn(30), r.pick([]string{"x", "y", "é", "0"}), g.str(d-1))
 	default:
 		return "if(" + g.boolean(d-1) + ", " + g.boolean(d-1) + ", " + g.boolean(d-1) + ")"
 	}
